@@ -1481,6 +1481,11 @@ impl Property for C17 {
         "C17"
     }
 
+    fn self_confirming(&self, sig: &str) -> bool {
+        // a storm's final request was missed twice in a row (2 s each) inside the round
+        sig == "wake/lost-after-concurrent-requests"
+    }
+
     fn isolate(&self) -> bool {
         // signal dispositions are process wide: one terminal per process
         true
